@@ -3,15 +3,40 @@
 package main
 
 import (
+	"math"
 	"math/big"
 
+	"github.com/dappledger/AnnChain/eth/common"
+	"github.com/dappledger/AnnChain/eth/core"
 	"github.com/dappledger/AnnChain/eth/core/state"
+	"github.com/dappledger/AnnChain/eth/core/types"
 	"github.com/dappledger/AnnChain/eth/core/vm"
 	"github.com/dappledger/AnnChain/eth/params"
+	glog "github.com/dappledger/AnnChain/gemmill/modules/go-log"
+	"go.uber.org/zap"
 )
 
 func sideName() string { return "intree" }
-func sideInit()        {}
+func sideInit()        { glog.SetLog(zap.NewNop()) }
+
+// applyMessage runs the call as a transaction of `from` through core.ApplyMessage (state_transition.go).
+func applyMessage(evm *vm.EVM, s *state.StateDB, from, to common.Address, input []byte) ([]byte, error) {
+	msg := types.NewMessage(from, &to, s.GetNonce(from), new(big.Int), topGas, new(big.Int), input, true)
+	ret, _, failed, err := core.ApplyMessage(evm, msg, new(core.GasPool).AddGas(math.MaxUint64))
+	if err != nil {
+		return nil, err
+	}
+	if failed {
+		return ret, errVMFailed
+	}
+	return ret, nil
+}
+
+type vmFailed struct{}
+
+func (vmFailed) Error() string { return "vm reported failed" }
+
+var errVMFailed = vmFailed{}
 
 var allForks = &params.ChainConfig{ChainID: big.NewInt(1), HomesteadBlock: big.NewInt(0), EIP150Block: big.NewInt(0),
 	EIP155Block: big.NewInt(0), EIP158Block: big.NewInt(0), ByzantiumBlock: big.NewInt(0), ConstantinopleBlock: big.NewInt(0),
